@@ -8,6 +8,10 @@ NOTE_COMMON = ("Trusted base: go/packages + go/types + go/ssa of golang.org/x/to
                "so a large refactoring can raise an alarm although behaviour is preserved.")
 
 claimed = {
+ "C20": dict(
+   text="Decides the structural clauses of number fidelity: the integer encoder is evaluated from the source for every integer in [-70000,70000], all format boundaries, powers of two ±3 and the int32 extremes, and each output is decoded both by the Type 1 number grammar and by the repository's own decoder branches to the same integer, in the proper 1/2/2/5-byte format; decoder ranges 32–246/247–250/251–254/255 equal the book for all first bytes; fraction encoder: integer path, denominators exactly 1..107, int32 clamp, `p q div` order, returned p/q of the same p,q; decoder div operand order; no narrowing below 32 bits on the way to the encoder; position tracking adds exactly the returned deltas once per axis. The 1/214 bound and absence of drift as numbers are not decided.",
+   technique="static analysis: abstract integer evaluation of encoder and decoder formulas extracted from the type-checked AST (sibling round trip + specification grammar), canonical symbolic terms, AST def-use rule for position tracking, SSA backward slice for narrowing",
+   ref="DESIGN.md §5 C20"),
  "C04": dict(
    text="Decides table agreement of the tokenizer for all inputs: regular-character and white-space classes, the literal-string escape table, octal escapes, CR/LF normalisation flags, nesting of parentheses, hexadecimal and ASCII85 digit classes/values/radix/padding are evaluated for every byte value from the type-checked source and compared with the PLRM; writer ⊆ reader⁻¹ for String.PS over all 512 (byte, balance) cases; Name.PS uses the scanner's own classifier; number-capable tokens reach the number parser; CR LF is one line end in comments; DSC comments are appended only after an error-free run. Token-boundary behaviour and number syntax themselves are not decided.",
    technique="static analysis: exhaustive byte-domain evaluation of pure classifier code extracted from the type-checked AST, compared with specification tables and between reader and writer",
